@@ -5,7 +5,7 @@
     (average_recession_time / average_rising_depth, Model/Views.v) list exactly
     T(level) + k on the grid levels that carry data. *)
 From Spowtd Require Import Model.FitOffsets Model.Views Proofs.QSum Proofs.FitOffsetsSpec
-  Proofs.FindOffsetsSpec Proofs.ViewsSpec Proofs.ViewsFitSpec.
+  Proofs.FindOffsetsSpec Proofs.FindOffsetsComplete Proofs.ViewsSpec Proofs.ViewsFitSpec.
 From Coq Require Import Lia Lqa.
 
 Section Planted.
@@ -106,4 +106,85 @@ Proof.
     apply crossed_by_aligned in Hl. exact Hl. }
   rewrite (planted_head_mean E x T k Hrec h (Hex h Hh)).
   rewrite (planted_head_mean E x T k Hrec ref (Hex ref Href)). ring.
+Qed.
+
+(** The tables written from the solver's result hold the mapping's entries, the
+    series relabelled by position: the planted relation carries over. *)
+Lemma written_entries_perm (start_of : nat -> Z) (hm : head_mapping) sids offs :
+  NoDup sids ->
+  (forall x y, In x sids -> In y sids -> start_of x = start_of y -> x = y) ->
+  (forall k cs s v, In (k, cs) hm -> In (s, v) cs -> In s sids) ->
+  let O := written_offsets start_of sids offs in
+  let Cr := written_crossings start_of hm in
+  Permutation.Permutation (aligned_entries O Cr)
+    (map (fun c => {| e_head := e_head c; e_series := find_pos (e_series c) sids; e_val := e_val c |})
+         (entries_of hm)).
+Proof.
+  intros HN Hinj Hin O Cr.
+  unfold aligned_entries, entries_from, join_on.
+  eapply Permutation.perm_trans; [apply flat_map_swap|].
+  unfold Cr, written_crossings, entries_of. rewrite flat_map_flat_map.
+  match goal with |- Permutation.Permutation ?l ?r =>
+    assert (EQ : l = r); [|rewrite EQ; apply Permutation.Permutation_refl] end.
+  induction hm as [|(k, cs) hm' IH]; [reflexivity|].
+  cbn [flat_map]. rewrite map_app, IH by (intros k' cs' s v H1 H2; eapply Hin; [right; exact H1|exact H2]).
+  f_equal. cbn [fst snd]. rewrite flat_map_map.
+  assert (Hcs : forall s v, In (s, v) cs -> In s sids)
+    by (intros s v H; eapply Hin; [left; reflexivity|exact H]).
+  clear IH Hin. cbn [fst snd]. induction cs as [|(s, v) cs IHc]; [reflexivity|].
+  cbn [flat_map map fst snd]. rewrite IHc by (intros s' v' H; eapply Hcs; right; exact H).
+  unfold O, written_offsets.
+  rewrite (lookup_one start_of (assignment sids offs)
+             (fun io => [{| e_head := k; e_series := fst io; e_val := v |}]) s sids 0%nat HN Hinj
+             (Hcs s v (or_introl eq_refl))).
+  reflexivity.
+Qed.
+
+Lemma written_entries_planted (start_of : nat -> Z) (hm : head_mapping) sids offs (T : Z -> Q) (k : Q) :
+  NoDup sids ->
+  (forall x y, In x sids -> In y sids -> start_of x = start_of y -> x = y) ->
+  (forall h cs s v, In (h, cs) hm -> In (s, v) cs -> In s sids) ->
+  let O := written_offsets start_of sids offs in
+  let Cr := written_crossings start_of hm in
+  (forall c, In c (entries_of hm) -> assignment sids offs (e_series c) + e_val c == T (e_head c) + k) ->
+  forall c, In c (aligned_entries O Cr) -> offset_of O (e_series c) + e_val c == T (e_head c) + k.
+Proof.
+  intros HN Hinj Hin O Cr Hrec c Hc.
+  apply (Permutation.Permutation_in _ (written_entries_perm start_of hm sids offs HN Hinj Hin)) in Hc.
+  apply in_map_iff in Hc. destruct Hc as (c0 & <- & Hc0). cbn [e_head e_series e_val].
+  rewrite <- (Hrec c0 Hc0).
+  assert (Hs : In (e_series c0) sids).
+  { apply in_entries_of in Hc0. destruct Hc0 as (cs & Hp & Hsv). eapply Hin; eassumption. }
+  unfold offset_of, O, written_offsets. rewrite map_map. cbn [snd].
+  rewrite (nth_find_pos (fun s => assignment sids offs s) (e_series c0) sids Hs). reflexivity.
+Qed.
+
+(** End to end inside the model: solver result -> written tables -> reference
+    shift -> view. *)
+Theorem planted_written_view_from_reference
+  (start_of : nat -> Z) hm sids offs grid step ref (T : Z -> Q) (cs : nat -> Q) :
+  find_offsets hm = Ok (sids, offs) ->
+  NoDup grid ->
+  (forall a b, In a sids -> In b sids -> start_of a = start_of b -> a = b) ->
+  let E := entries_of (drop_single hm) in
+  let O := written_offsets start_of sids offs in
+  let Cr := written_crossings start_of (drop_single hm) in
+  connected E ->
+  (forall c, In c E -> e_val c == T (e_head c) - cs (e_series c)) ->
+  In ref (view_levels O Cr grid) ->
+  forall h, In h (view_levels O Cr grid) ->
+    exists v, In (inject_Z h * step, v)
+                 (view_average (store_with_reference O Cr ref) Cr grid step) /\
+              v == T h - T ref.
+Proof.
+  intros Hfo HG Hinj E O Cr Hconn Hval Href h Hh.
+  destruct (planted_recovered hm sids offs T cs Hfo Hconn Hval) as (k & _ & Hrec). fold E in Hrec.
+  destruct (find_offsets_sound hm sids offs Hfo) as (Hs & _ & _). fold E in Hs.
+  assert (HN : NoDup sids) by (rewrite Hs; apply sorted_ids_nodup).
+  assert (Hin : forall l cs' s v, In (l, cs') (drop_single hm) -> In (s, v) cs' -> In s sids).
+  { intros l cs' s v Hp Hsv. rewrite Hs. apply sorted_ids_in. apply in_map_iff.
+    exists {| e_head := l; e_series := s; e_val := v |}. split; [reflexivity|].
+    apply in_entries_of. exists cs'. auto. }
+  apply (planted_view_from_reference O Cr grid step ref T k HG); [|exact Href|exact Hh].
+  exact (written_entries_planted start_of (drop_single hm) sids offs T k HN Hinj Hin Hrec).
 Qed.
